@@ -3,12 +3,16 @@
 1. Coq: model of jumptable_utils (C07/Jumptable.v) with theorems (perfect hash, partition), spec_dispatch and
    models of the six emitted dispatchers (C07/Dispatch.v) proved equal to the spec for all tables/calldata/values.
 2. Tie (tables): model vs the real jumptable_utils functions, exact output, on exhaustive small + seeded random id sets.
-3. Tie (dispatcher): real compiler + pyrevm on generated contracts vs spec_dispatch evaluated in Coq (vm_compute).
+3. Tie (dispatcher): real compiler + pyrevm on generated contracts vs spec_dispatch evaluated in Coq (vm_compute);
+   call values: boundary-biased family (vlib/c07_pay.py value_family), not just 0/1.
+4. Payability guard: Coq templates of the emitted entry checks (C07/PayGuard.v; C07_nonpayable_refuses_any_value in
+   C07/PropsPay.v) matched syntactically against the IR of the six real selector-section generators (vlib/c07_pay.py).
 """
 import itertools
 import time
 
 from vlib import c07_gen as G
+from vlib import c07_pay as P
 from vlib import configs, coqrun, evm
 from vlib.common import COQ
 
@@ -20,9 +24,17 @@ META = {
             "models of the linear, sparse and dense dispatchers of both code generators equal a two-line specification "
             "(spec_dispatch) for every table, calldata (incl. < 4 bytes) and call value; EVM word arithmetic of the dense "
             "dispatcher is proved equal to the builder's integer arithmetic. The emitted dispatchers are tied to the "
-            "specification by executing real compiler output (3 strategies x 2 pipelines) on pyrevm.",
+            "specification by executing real compiler output (3 strategies x 2 pipelines) on pyrevm, every entry point / "
+            "default-argument variant / __default__ with a boundary-biased family of call values (both parities, 2**k, "
+            "gwei/ether, 2**128, 2**255, 2**256-1). The payable / non-payable + calldatasize entry checks are Coq templates "
+            "(PayGuard.v) proved to refuse EVERY non-zero call value for a non-payable entry before the body "
+            "(C07_nonpayable_refuses_any_value) and to equal the entry checks of the dispatcher models; the templates are "
+            "matched syntactically, on every run, against the IR the six real selector-section generators emit for every "
+            "entry point (and the dense function-info metadata against `metadata e`).",
     "level_note": "Trusted: Coq kernel + vm_compute; c07_jt2coq translator (4 kernels; bridged + diffed against CPython); "
-                  "hand models of the two generate_* loops and of the dispatchers are tied by correspondence, not translation; "
+                  "hand models of the two generate_* loops and of the dispatchers are tied by correspondence, not translation "
+                  "(their entry checks: syntactically, via the guard templates; extractor tools/vlib/c07_pay.py is trusted to "
+                  "read the emitted IR, unknown constructs become GBad = never equal to a template); "
                   "keccak/method_id and label resolution (assembler) are outside the model; builder theorems are conditional "
                   "on the builder returning (RuntimeError on adversarial id sets is C20).",
     "technique": "Coq proof over translated kernels + hand-written models, differential correspondence (real functions, real compiler + pyrevm)",
@@ -34,6 +46,11 @@ IMPORTS = "From Verif Require Import Base.Word256 C07.Jumptable C07.Dispatch C07
 MODEL_FILES = ["C07/GenConsts.v", "C07/Jumptable.v", "C07/Dispatch.v", "C07/Harness.v"]
 PROOF_FILES = ["C07/JumptableProofs.v", "C07/DispatchProofs.v", "C07/DenseProofs.v", "C07/PropsC07.v"]
 TTIE_FILES = ["C07/JtSupport.v", "C07/GenJumptable.v", "C07/Bridge.v", "C07/PropsSrc.v"]
+# payability guard: templates of the emitted entry checks (model), theorems (nonpayable_refuses_any_value), tied
+# syntactically to the IR of the six real selector-section generators by vlib/c07_pay.py
+PAY_MODEL_FILES = ["C07/PayGuard.v"]
+PAY_PROOF_FILES = ["C07/PayGuardProofs.v", "C07/PropsPay.v"]
+PAY_IMPORTS = "From Verif Require Import Base.Word256 C07.Jumptable C07.Dispatch C07.PayGuard.\n"
 
 ERR = {"_HasEmptyBuckets": 1, "_FindMagicFailure": 2, "RuntimeError": 3, "ZeroDivisionError": 4, "ValueError": 6}
 
@@ -304,10 +321,12 @@ def coq_entry(e, idx):
 
 def coq_call(c):
     prefix, length, value = c
-    return f"([{'; '.join(str(b) for b in prefix)}], {length}, {value})"
+    return f"([{'; '.join(str(b) for b in prefix)}], {length}, {hex(value) if value > 2**31 else value})"
 
 
-def part_dispatch(ctx, model_ok):
+def part_dispatch(ctx, model_ok, tie=None):
+    """tie: list collecting (coq expr, description) guard-tie items / extraction errors of every compilation"""
+    tie = tie if tie is not None else []
     rnd = ctx.rng("dispatch")
     pools = G.mine(120000 if ctx.tier == "quick" else 400000)
     ctx.corr["mined"] = {k: len(v) for k, v in pools.items()}
@@ -328,6 +347,7 @@ def part_dispatch(ctx, model_ok):
 
     # --- expected outcomes from the Coq specification
     exprs, metas = [], []
+    n_value_calls = 0
     from vyper.codegen import jumptable_utils as ju
     for ci, (fns, fb) in enumerate(contracts):
         es = G.entries(fns)
@@ -339,6 +359,11 @@ def part_dispatch(ctx, model_ok):
             except Exception:  # noqa
                 pass
         calls = G.call_matrix(rnd, es, ctx.tier, sorted(hints))
+        # payability guard: boundary-biased call values (both parities, single bits, decimal units, largest words) on
+        # every entry point / default-argument variant / fallback path (own random stream: the matrix above is unchanged)
+        vcalls = P.value_calls(ctx.rng(f"values:{ci}"), es, ctx.tier)
+        n_value_calls += len(set(vcalls) - set(calls))
+        calls = sorted(set(calls) | set(vcalls))
         fns_c = "[" + "; ".join(coq_entry(e, i) for i, e in enumerate(es)) + "]"
         fb_c = "None" if fb is None else f"(Some {'true' if fb else 'false'})"
         calls_c = "[" + "; ".join(coq_call(c) for c in calls) + "]"
@@ -376,6 +401,7 @@ def part_dispatch(ctx, model_ok):
     n_calls = 0
     distinct = set()
     dist = {}
+    vdist = {}
     found = False
     si = 0
     t0 = time.time()
@@ -388,12 +414,13 @@ def part_dispatch(ctx, model_ok):
             exp_strat = strat_out[si]
             si += 1
             try:
-                with StrategySpy() as spy:
+                with StrategySpy() as spy, P.GuardSpy() as gspy:
                     out = configs.compile_src(src, cfg, formats=("bytecode",))
             except Exception as e:  # noqa
                 ctx.violation("correspondence-broken", f"generated contract does not compile under {cfg.name}: {type(e).__name__}: {e}",
                               {"source": src, "config": cfg.name})
                 return n_calls, found
+            collect_tie(tie, gspy, cfg, es, fb, src)
             if len(spy.calls) != 1 or spy.calls[0][0] != cfg.venom:
                 ctx.violation("correspondence-broken", "expected exactly one selector-section generator call of the configured pipeline",
                               {"config": cfg.name, "calls": spy.calls})
@@ -413,9 +440,16 @@ def part_dispatch(ctx, model_ok):
             for c, e in zip(calls, exp):
                 prefix, length, value = c
                 data = G.calldata_for(prefix, length)
+                P.fund(ch, addr, value)
                 r = ch.call(addr, data, value=value)
+                if P.halted(r):
+                    ctx.violation("gate", "harness could not fund a call (pyrevm halt, not a revert of the contract)",
+                                  {"config": cfg.name, "value": value, "halt": str(r.logs[0][1])})
+                    return n_calls, found
                 o = G.observe(r, fns)
                 n_calls += 1
+                if value > 1:
+                    vdist[(sname, "even" if value % 2 == 0 else "odd")] = vdist.get((sname, "even" if value % 2 == 0 else "odd"), 0) + 1
                 if e == 0:
                     want, ok = ("revert",), o == ("revert",)
                 elif e == 1:
@@ -444,6 +478,8 @@ def part_dispatch(ctx, model_ok):
             break
     ctx.corr["dispatch_calls"] = n_calls
     ctx.corr["dispatch_distribution"] = {f"{k[0]}/{k[1]}": v for k, v in sorted(dist.items())}
+    ctx.corr["dispatch_value_family_calls_per_config"] = n_value_calls
+    ctx.corr["dispatch_calls_value_gt_1"] = {f"{k[0]}/{k[1]}": v for k, v in sorted(vdist.items())}
     ctx.corr["contracts"] = len(contracts)
     ctx.corr["configs"] = [c.name for c in cfgs]
     ctx.corr["evm_seconds"] = round(time.time() - t0, 1)
@@ -452,6 +488,63 @@ def part_dispatch(ctx, model_ok):
         ctx.samples.append({"contract_functions": [e[4] for e in metas[ci][1]][:8],
                             "call": str(metas[ci][2][len(metas[ci][2]) // 2]), "spec": spec_out[ci][len(metas[ci][2]) // 2]})
     return len(distinct), found
+
+
+def collect_tie(tie, gspy, cfg, es, fb, src):
+    """Guard arms of every entry point of one compilation -> tie items (evaluated in Coq by part_guard_tie)."""
+    where = {"config": cfg.name, "source": src}
+    try:
+        tie += P.tie_items(gspy, cfg.venom, es, fb, where)
+    except Exception as e:  # noqa  (fail closed: an arm that cannot be extracted is a broken tie)
+        tie.append((None, dict(where, error=f"{type(e).__name__}: {e}")))
+
+
+def part_guard_tie(ctx, tie, guard_model_ok, found):
+    """Syntactic tie of the guard templates (C07/PayGuard.v) to the emitted IR: every extracted arm must be the template
+    instantiated with the entry's payability / min_calldatasize (arm_eqb, sound by C07_guard_tie_sound), and the dense
+    function-info metadata must be `metadata e`.  A mismatch after the EVM value-family search found nothing is
+    reported as correspondence-broken naming the theorem that no longer applies."""
+    errors = [d for x, d in tie if x is None]
+    uniq = {}
+    for x, d in tie:
+        if x is not None:
+            uniq.setdefault(x, d)
+    ctx.corr["guard_tie_arms"] = len([1 for x, _d in tie if x is not None])
+    ctx.corr["guard_tie_distinct"] = len(uniq)
+    kinds = {}
+    for x, d in uniq.items():
+        kinds[d["kind"]] = kinds.get(d["kind"], 0) + 1
+    names = {0: "legacy-linear", 1: "legacy-sparse", 2: "venom-linear/sparse", 3: "dense(shared arm)", 4: "__default__", 5: "dense-metadata"}
+    ctx.corr["guard_tie_distinct_by_kind"] = {names[k]: v for k, v in sorted(kinds.items())}
+    bad = None
+    if errors:
+        bad = ("the guard arm of an entry point cannot be extracted from the emitted selector section", errors[0])
+    elif not guard_model_ok:
+        return 0
+    elif uniq:
+        xs = list(uniq)
+        outs = coqrun.eval_zlists(PAY_IMPORTS, xs, "c07tie", shard=max(1, len(xs)), timeout=300)
+        for x, o in zip(xs, outs):
+            if o != [1]:
+                d = dict(uniq[x])
+                if d["kind"] != 5:
+                    # directed hint: which call values the extracted arm of a non-payable entry lets through (model)
+                    vals = [0, 1, 2, 3, 4, 10**9, 10**18, 2**128, 2**255, 2**256 - 1]
+                    env = "36 (info_word %d (mkEntry 0xa9059cbb false 36 7)) 0xa9059cbb" % max(1, d["F"])
+                    try:
+                        rv = coqrun.eval_zlists(PAY_IMPORTS, [f"run_arm_values {d['extracted_arm']} {env} {coqrun.zlist(vals)}"], "c07tieh", timeout=120)[0]
+                        d["extracted_arm_on_values(0 revert,1 fallback,2 enter,-1 stuck)"] = {hex(v): r for v, r in zip(vals, rv)}
+                    except Exception:  # noqa
+                        pass
+                bad = ("the entry checks emitted for an entry point are not the template of C07/PayGuard.v "
+                       "(C07_nonpayable_refuses_any_value / C07_guard_templates_model no longer describe the emitted code)", d)
+                break
+    if bad and not found:
+        d = bad[1]
+        ctx.violation("correspondence-broken", bad[0], d, key=f"guard-tie:{d.get('config', '?').split('-')[0]}")
+    if uniq:
+        ctx.samples.append({"guard_tie": next(iter(uniq))[:300]})
+    return len(uniq)
 
 
 def part_corpus(ctx):
@@ -488,10 +581,15 @@ def part_corpus(ctx):
     return n
 
 
-def part_entry_points(ctx):
+def part_entry_points(ctx, tie=None):
     """Default-argument entry points x parameter head shapes (see vlib/c07_entry.py): the variant selected by the
     selector of a prefix signature receives exactly the supplied values and the declared defaults for the rest."""
     from vlib import c07_entry as E
+    from vyper.utils import method_id_int
+    tie = tie if tie is not None else []
+    vrnd = ctx.rng("entry-values")
+    fam = [v for v in P.value_family(vrnd, ctx.tier) if v]
+    nval = 0
     rnd = ctx.rng("entry")
     fns = E.family(rnd, ctx.tier)
     C = configs.Config
@@ -504,11 +602,15 @@ def part_entry_points(ctx):
     for src, chunk, base in E.contracts(fns):
         for cfg in cfgs:
             try:
-                out = configs.compile_src(src, cfg, formats=("bytecode",))
+                with P.GuardSpy() as gspy:
+                    out = configs.compile_src(src, cfg, formats=("bytecode",))
             except Exception as e:  # noqa
                 ctx.violation("correspondence-broken", f"entry-point family contract does not compile under {cfg.name}: "
                               f"{type(e).__name__}: {e}", {"source": src, "config": cfg.name})
                 return n
+            es = [(method_id_int(sig), False, E.head_size(types, vals), (j, k), sig)
+                  for j, f in enumerate(chunk) for k, (sig, types, vals, _e) in enumerate(f.variants())]
+            collect_tie(tie, gspy, cfg, es, None, src)
             ch = evm.Chain(cfg.evm)
             addr = ch.deploy(bytes.fromhex(out["bytecode"][2:]))
             if addr is None:
@@ -532,6 +634,20 @@ def part_entry_points(ctx):
                                      "len*1000+sum (DynArray), len(label)*1000+weight (dynamic struct), ...; supplied and default values differ"},
                             key=f"entry-points:{'venom' if cfg.venom else 'legacy'}")
                         return n
+                    # every variant is non-payable: any non-zero value (both parities, boundary-biased) must revert
+                    for v in (2, vrnd.choice(fam) & ~1 or 4, vrnd.choice(fam)):
+                        P.fund(ch, addr, v)
+                        r = ch.call(addr, data, value=v)
+                        n += 1
+                        nval += 1
+                        if r.ok or P.halted(r):
+                            got = [int.from_bytes(r.out[i:i + 32], "big") for i in range(0, len(r.out), 32)] if r.ok else str(r.logs)
+                            ctx.violation(
+                                "failing-input", "non-payable entry point (default-argument variant) accepts a call carrying value",
+                                {"source": src, "config": cfg.name, "function": f.source(base + j), "called_signature": sig,
+                                 "calldata": data.hex(), "value": v, "expected": "revert", "observed": ["ok", got]},
+                                key=f"entry-points:value:{'venom' if cfg.venom else 'legacy'}")
+                            return n
                     # calldata shorter than the head of the argument tuple (selector intact) must revert
                     head = E.head_size(types, vals)
                     for ln in E.truncation_lengths(head, ctx.tier):
@@ -548,6 +664,7 @@ def part_entry_points(ctx):
                                 key=f"entry-points:mincds:{'venom' if cfg.venom else 'legacy'}")
                             return n
     ctx.corr["entry_point_truncated_calls"] = ntrunc
+    ctx.corr["entry_point_value_calls"] = nval
     ctx.corr["entry_point_calls"] = n
     ctx.corr["entry_point_shapes"] = len(shapes)
     return n
@@ -565,6 +682,7 @@ def replay(ctx):
     out = configs.compile_src(d["source"], cfg, formats=("bytecode",))
     ch = evm.Chain(cfg.evm)
     addr = ch.deploy(bytes.fromhex(out["bytecode"][2:]))
+    P.fund(ch, addr, d["value"])
     r = ch.call(addr, bytes.fromhex(d["calldata"]), value=d["value"])
     o = G.observe(r, None)
     obs = [o[0]] + ([o[1].hex()] if o[0] == "enter" else list(o[1:]))
@@ -594,23 +712,45 @@ def run(ctx):
     bm = ctx.coq_build(MODEL_FILES)
     model_ok = bm["ok"]
     b = bm
+    guard_model_ok = False
     if model_ok:
+        bg = ctx.coq_build(PAY_MODEL_FILES)
+        guard_model_ok = bg["ok"]
         b = ctx.coq_build(PROOF_FILES)
+        if b["ok"]:
+            b = ctx.coq_build(PAY_PROOF_FILES) if guard_model_ok else bg
         if b["ok"] and gen_ok:
             b = ctx.coq_build(TTIE_FILES)
     ctx.log(f"coq build: {time.time() - t:.1f}s ok={b['ok']} generated={gen_ok}")
-    t = time.time()
-    n1, found1 = part_tables(ctx, model_ok)
-    ctx.log(f"tables: {n1} cases in {time.time() - t:.1f}s")
-    t = time.time()
-    n2, found2 = part_dispatch(ctx, model_ok)
-    ctx.log(f"dispatch: {n2} distinct calls in {time.time() - t:.1f}s (evm part {ctx.corr.get('evm_seconds')}s)")
-    n3 = part_corpus(ctx)
-    t = time.time()
-    n3 += part_entry_points(ctx)
-    ctx.log(f"entry points: {ctx.corr.get('entry_point_calls')} calls, {ctx.corr.get('entry_point_shapes')} (params, defaults, arity) shapes in {time.time() - t:.1f}s")
-    found2 = found2 or any((v.get("key") or "").startswith("entry-points") for v in ctx.violations)
-    found2 = found2 or any(v.get("key") == "venom-sparse-empty-bucket-fallback-stack" for v in ctx.violations)
+    # the table part (coqc-bound) and the dispatcher parts (compiler + pyrevm) are independent: two forked workers
+    def g_tables(c):
+        t1 = time.time()
+        n, _f = part_tables(c, model_ok)
+        c.corr["_n1"] = n
+        c.log(f"tables: {n} cases in {time.time() - t1:.1f}s")
+        return 0
+
+    def g_dispatch(c):
+        t1 = time.time()
+        tie = []
+        n2, found = part_dispatch(c, model_ok, tie)
+        c.corr["_n2"] = n2
+        c.log(f"dispatch: {n2} distinct calls in {time.time() - t1:.1f}s (evm part {c.corr.get('evm_seconds')}s)")
+        n3 = part_corpus(c)
+        t1 = time.time()
+        n3 += part_entry_points(c, tie)
+        c.corr["_n3"] = n3
+        c.log(f"entry points: {c.corr.get('entry_point_calls')} calls, {c.corr.get('entry_point_shapes')} (params, defaults, arity) shapes in {time.time() - t1:.1f}s")
+        found = found or any(v.get("kind") == "failing-input" for v in c.violations)
+        t1 = time.time()
+        n4 = part_guard_tie(c, tie, guard_model_ok, found)
+        c.log(f"guard tie: {c.corr.get('guard_tie_arms')} extracted arms, {n4} distinct, in {time.time() - t1:.1f}s")
+        return 0
+
+    ctx.run_groups([[("tables", g_tables)], [("dispatch/entry points/guard tie", g_dispatch)]])
+    n1, n2, n3 = (ctx.corr.pop(k, 0) for k in ("_n1", "_n2", "_n3"))
+    found1 = any((v.get("key") or "").startswith("tables:") for v in ctx.violations)
+    found2 = any(v.get("kind") == "failing-input" and not (v.get("key") or "").startswith("tables:") for v in ctx.violations)
     if rejected and not (found1 or found2):
         ctx.violation("translator-rejected", "c07_jt2coq cannot translate jumptable_utils.py: " + rejected, {"error": rejected})
     if not b["ok"] and not (found1 or found2):
